@@ -183,6 +183,10 @@ def _value_shapes():
         ("fn-call", lambda U, env, c: ('((fn [x] #(x %d)) "z")' % U, ("z", U), "", None)),
         ("let", lambda U, env, c: ("(let [y %d] [y y])" % U, [U, U], "", None)),
         ("f-string", lambda U, env, c: ('f"v={(+ %d 1)}"' % U, "v=%d" % (U + 1), "", None)),
+        # line breaks inside an f-string replacement field: after the field's form, after a conversion, right after the brace
+        ("f-string-field-broken-before-close", lambda U, env, c: ('f"v={(+ %d 1)\n}"' % U, "v=%d" % (U + 1), "", None)),
+        ("f-string-field-broken-after-conversion", lambda U, env, c: ('f"v={(+ %d 1) !r\n}w"' % U, "v=%dw" % (U + 1), "", None)),
+        ("f-string-field-broken-after-open", lambda U, env, c: ('f"{\n(+ %d 1)}"' % U, "%d" % (U + 1), "", None)),
         ("print-in-value", lambda U, env, c: ('[(print "p%d") %d]' % (U, U), [None, U], "p%d\n" % U, None)),
     ]
     return S
